@@ -179,14 +179,32 @@ def resolve_local(f: FuncInfo, e: ast.expr, depth: int = 3) -> ast.expr:
 def _targets(n):
     ts = n.targets if isinstance(n, ast.Assign) else [n.target]
     out = []
+
+    def add(t):
+        if isinstance(t, ast.Name):
+            out.append(t)
+        elif isinstance(t, (ast.Tuple, ast.List)):
+            for e in t.elts:
+                add(e)
+        elif isinstance(t, ast.Starred):
+            add(t.value)
+        elif isinstance(t, (ast.Subscript, ast.Attribute)):
+            # A[i] = v / A.x = v write into A; the index expression is only read
+            b = t.value
+            while isinstance(b, (ast.Subscript, ast.Attribute)):
+                b = b.value
+            if isinstance(b, ast.Name):
+                out.append(b)
     for t in ts:
-        out.extend(x for x in ast.walk(t) if isinstance(x, ast.Name))
+        add(t)
     return out
 
 
 def inline_locals(f: FuncInfo, e: ast.expr, depth: int = 5) -> ast.expr:
     """a copy of e in which every local name that is bound exactly once in f (by a plain assignment, not a loop / with / augmented assignment, not a parameter) is replaced,
-    recursively, by the expression it was bound to: the name-free form of e.  Names bound several times, parameters and loop variables stay."""
+    recursively, by the expression it was bound to: the name-free form of e.  Names bound several times, parameters and loop variables stay.
+    A temporary is only replaced when that cannot change what is read: no name its expression reads is bound or written into between the temporary's assignment and
+    the use (`t = d[q]; d = ...; use(t)` keeps `t`)."""
     import copy
     cache = getattr(f, "_sa_single", None)
     if cache is None:
@@ -195,18 +213,52 @@ def inline_locals(f: FuncInfo, e: ast.expr, depth: int = 5) -> ast.expr:
             if isinstance(n, (ast.Assign, ast.AugAssign, ast.AnnAssign, ast.For, ast.With, ast.NamedExpr, ast.comprehension)):
                 for x in _targets(n) if isinstance(n, (ast.Assign, ast.AugAssign, ast.AnnAssign, ast.For)) else [y for y in ast.walk(n) if isinstance(y, ast.Name) and isinstance(y.ctx, ast.Store)]:
                     binds.setdefault(x.id, []).append(n)
-        cache = {k: v[0].value for k, v in binds.items() if len(v) == 1 and isinstance(v[0], ast.Assign) and len(v[0].targets) == 1 and isinstance(v[0].targets[0], ast.Name) and k not in f.all_params}
+        single = {k: v[0] for k, v in binds.items() if len(v) == 1 and isinstance(v[0], ast.Assign) and len(v[0].targets) == 1 and isinstance(v[0].targets[0], ast.Name) and k not in f.all_params}
+        loops = [n for n in f.body_nodes() if isinstance(n, (ast.For, ast.While))]
+        cache = (single, binds, loops)
         f._sa_single = cache
+    single, binds, loops = cache
+    use_line = getattr(e, "lineno", None)
+
+    def fresh(name: str) -> bool:
+        """may the single-assignment temporary `name` be replaced by its expression at the use?"""
+        a = single[name]
+        la = a.lineno
+        for y in {n.id for n in ast.walk(a.value) if isinstance(n, ast.Name)}:
+            for b in binds.get(y, ()):
+                if b is a:
+                    continue
+                lb = getattr(b, "lineno", la)
+                if lb < la and not any(l.lineno <= lb <= getattr(l, "end_lineno", lb) and l.lineno <= la <= getattr(l, "end_lineno", la) for l in loops):
+                    continue   # bound before the temporary was computed (and not in a loop around it)
+                if use_line is not None and lb > use_line and not any(l.lineno <= lb <= getattr(l, "end_lineno", lb) and l.lineno <= use_line <= getattr(l, "end_lineno", use_line) for l in loops):
+                    continue   # bound after the use, and no loop carries it back
+                if isinstance(b, ast.For) and lb < la:
+                    continue   # loop variable of a loop that encloses both
+                return False
+        return True
 
     class T(ast.NodeTransformer):
         def __init__(self, d):
             self.d = d
 
         def visit_Name(self, n):
-            if isinstance(n.ctx, ast.Load) and n.id in cache and self.d > 0:
-                return T(self.d - 1).visit(copy.deepcopy(cache[n.id]))
+            if isinstance(n.ctx, ast.Load) and n.id in single and self.d > 0 and fresh(n.id):
+                return T(self.d - 1).visit(copy.deepcopy(single[n.id].value))
             return n
     return T(depth).visit(copy.deepcopy(e))
+
+
+def see_name(f: FuncInfo, e: ast.expr) -> ast.expr:
+    """if e is a bare single-assignment temporary that inline_locals would replace, the expression it was bound to (one step only: names inside stay as written); else e"""
+    for _ in range(4):
+        if not isinstance(e, ast.Name):
+            break
+        r = inline_locals(f, e, depth=1)
+        if isinstance(r, ast.Name) and r.id == e.id:
+            break
+        e = r
+    return e
 
 
 def kwr(f: FuncInfo, call: ast.Call, callee: Optional[FuncInfo] = None) -> Dict[str, str]:
@@ -304,6 +356,23 @@ def path_conds(f: FuncInfo, node: ast.AST) -> List[Tuple[str, bool]]:
     mark = len(out)
     walk(f.node.body)
     return out
+
+
+_NEG_CMP = {ast.Lt: ast.GtE, ast.GtE: ast.Lt, ast.Gt: ast.LtE, ast.LtE: ast.Gt, ast.Eq: ast.NotEq, ast.NotEq: ast.Eq, ast.Is: ast.IsNot, ast.IsNot: ast.Is, ast.In: ast.NotIn, ast.NotIn: ast.In}
+
+
+def cond_holds(conds: List[Tuple[str, bool]], src: str) -> bool:
+    """does the atomic condition `src` hold on a path whose conditions are `conds` (from path_conds)?  Purely syntactic: the condition itself is on the
+    path with truth True, or its comparison-negation is on the path with truth False (`len(x) > 0` holds after `if len(x) <= 0: return`)."""
+    t = ast.parse(src, mode="eval").body
+    truth = True
+    while isinstance(t, ast.UnaryOp) and isinstance(t.op, ast.Not):
+        t, truth = t.operand, not truth
+    forms = {(norm_text(t).replace('"', "'"), truth)}
+    if isinstance(t, ast.Compare) and len(t.ops) == 1 and type(t.ops[0]) in _NEG_CMP:
+        n = ast.Compare(left=t.left, ops=[_NEG_CMP[type(t.ops[0])]()], comparators=t.comparators)
+        forms.add((norm_text(n).replace('"', "'"), not truth))
+    return any(c in forms for c in conds)
 
 
 def decision_paths(f: FuncInfo, limit: int = 256):
